@@ -86,7 +86,34 @@ def proof_gate(prefixes):
     if os.environ.get('VERIF_MUT_REPO'):
         # mutation campaign: the Coq development is not touched and was gated by the caller
         return dict(ok=True, theorems=[], failures=[])
-    return _proof_gate(prefixes)
+    gate = _proof_gate(prefixes)
+    if os.environ.get('VERIF_TIER_EFFECTIVE') == 'thorough':
+        ok, summary = coqchk_gate()
+        gate['coqchk'] = summary
+        if not ok:
+            gate['ok'] = False
+            gate['failures'].append('coqchk: ' + summary)
+    return gate
+
+
+def coqchk_gate():
+    """thorough tier: the independent checker re-checks Properties.vo and everything it depends
+    on and must report no axioms (cached by the hash of the compiled files)"""
+    vos = sorted(glob.glob(os.path.join(COQ, '*.vo')) + glob.glob(os.path.join(COQ, 'proofs', '*.vo')))
+    h = hashlib.sha256(b''.join(open(v, 'rb').read() for v in vos)).hexdigest()
+    cache = os.path.join(CACHE, 'coqchk.json')
+    if os.path.exists(cache):
+        c = json.load(open(cache))
+        if c.get('hash') == h:
+            return c['ok'], c['summary']
+    r = sh('timeout 1500 coqchk -o -silent -Q . DI DI.Properties 2>&1', cwd=COQ, timeout=1600)
+    out = r.stdout
+    ok = r.returncode == 0 and 'Axioms: <none>' in out and 'type-in-type: <none>' in out and \
+        'unsafe (co)fixpoints: <none>' in out and 'positivity is assumed: <none>' in out
+    summary = ' '.join(l.strip() for l in out.split('\n') if l.strip().startswith('*'))[:600]
+    os.makedirs(CACHE, exist_ok=True)
+    json.dump(dict(hash=h, ok=ok, summary=summary), open(cache, 'w'))
+    return ok, summary
 
 
 def _proof_gate(prefixes):
